@@ -1,4 +1,4 @@
-import IpcModel.Gen
+import IpcModel.GenTimed
 /-! C10: the three receive modes of `UnixCmsg::recv` over a kernel socket with an O_NONBLOCK flag.
 
 The kernel socket carries *first packets*; each stands for a message (`tag`) whose follow-up fragments are either all
